@@ -16,6 +16,7 @@ import (
 	"verifsim/harness"
 	_ "verifsim/props/c13"
 	c13 "verifsim/props/c13"
+	c14 "verifsim/props/c14"
 )
 
 func budget() (int64, time.Duration) {
@@ -49,4 +50,24 @@ func TestRaceC13(t *testing.T) {
 		n++
 	}
 	report(map[string]any{"workloads": n, "repeats_each": 4, "seconds": d.Seconds()})
+}
+
+func TestRaceC14(t *testing.T) {
+	seed, d := budget()
+	p := harness.Lookup("C14")
+	end := time.Now().Add(d)
+	n := 0
+	for i := int64(0); time.Now().Before(end); i++ {
+		c := p.Gen((seed<<20)+i, "race")
+		for rep := 0; rep < 2; rep++ {
+			if msg := c14.RunReal(c); msg != "" {
+				t.Fatalf("execution panicked on real goroutines: %s", msg)
+			}
+		}
+		n++
+	}
+	if g := c14.ProcessGlobals(); g != "" {
+		t.Fatalf("process-wide values modified: %s", g)
+	}
+	report(map[string]any{"workloads": n, "repeats_each": 2, "seconds": d.Seconds()})
 }
